@@ -50,6 +50,8 @@ var (
 		0x17, 0xe6, 0xab, 0x5a, 0x19, 0xce, 0x7b, 0x31, 0xf4, 0x48, 0x6f, 0xdf, 0xc0, 0xd2, 0x86, 0x40}
 	sigMsg = []byte("message digest")
 	encMsg = []byte("encryption standard")
+	// one-byte plaintext: one scalar in 256 derives an all-zero mask and must be discarded (GB/T 32918.4 step A5)
+	encMsg1 = []byte{0xc7}
 )
 
 type memo struct {
@@ -168,7 +170,7 @@ func sm2Ops() []*opDef {
 			return cv.RecoverK(d, new(big.Int).SetBytes(out[:32]), new(big.Int).SetBytes(out[32:]))
 		}
 	}
-	encRun := func(enc func(rd io.Reader) ([]byte, error), isASN1 bool) func(rd io.Reader) obs {
+	encRunN := func(enc func(rd io.Reader) ([]byte, error), isASN1 bool, encMsg []byte) func(rd io.Reader) obs {
 		return func(rd io.Reader) obs {
 			ct, err := enc(rd)
 			if err != nil {
@@ -191,7 +193,10 @@ func sm2Ops() []*opDef {
 			return obs{out: concat([]byte{4}, cat32(v.X, v.Y), v.C3, v.C2)}
 		}
 	}
-	encExpect := func(cv *ecref.Curve, pub ecref.Point) func(v *big.Int) ([]byte, bool) {
+	encRun := func(enc func(rd io.Reader) ([]byte, error), isASN1 bool) func(rd io.Reader) obs {
+		return encRunN(enc, isASN1, encMsg)
+	}
+	encExpectN := func(cv *ecref.Curve, pub ecref.Point, encMsg []byte) func(v *big.Int) ([]byte, bool) {
 		return func(v *big.Int) ([]byte, bool) {
 			c1, c2, c3, ok := cv.EncryptWithK(pub, v, encMsg)
 			if !ok || c1.Inf {
@@ -200,6 +205,12 @@ func sm2Ops() []*opDef {
 			return concat(c1.Uncompressed(), c3, c2), true
 		}
 	}
+
+	encExpect := func(cv *ecref.Curve, pub ecref.Point) func(v *big.Int) ([]byte, bool) {
+		return encExpectN(cv, pub, encMsg)
+	}
+	exp1 := cached(encExpectN(c, pubB, encMsg1))
+	a5Rejects := func(v *big.Int) bool { _, ok := exp1(v); return !ok }
 
 	rsRun := func(sign func(rd io.Reader) (*big.Int, *big.Int, error)) func(rd io.Reader) obs {
 		return func(rd io.Reader) obs {
@@ -288,6 +299,20 @@ func sm2Ops() []*opDef {
 				return sm2.EncryptASN1(rd, ecPub(sm2.P256(), pubB), encMsg)
 			}, true),
 			expect: noRest(encExpect(c, pubB)),
+		},
+		{
+			name: "sm2.encrypt.1byte", noun: "scalar", g: grpSM2A5, hiOff: 1, light: true, opRejects: a5Rejects,
+			run: encRunN(func(rd io.Reader) ([]byte, error) {
+				return sm2.Encrypt(rd, ecPub(sm2.P256(), pubB), encMsg1, nil)
+			}, false, encMsg1),
+			expect: noRest(exp1),
+		},
+		{
+			name: "sm2.encrypt.asn1.1byte", noun: "scalar", g: grpSM2A5, hiOff: 1, light: true, opRejects: a5Rejects,
+			run: encRunN(func(rd io.Reader) ([]byte, error) {
+				return sm2.EncryptASN1(rd, ecPub(sm2.P256(), pubB), encMsg1)
+			}, true, encMsg1),
+			expect: noRest(exp1),
 		},
 		{
 			name: "sm2.kx.init", noun: "scalar", g: grpSM2, hiOff: 1,
@@ -461,4 +486,25 @@ func sm2Ops() []*opDef {
 		},
 	}
 	return ops
+}
+
+
+// newGrpA5 is the SM2 alphabet plus the two smallest scalars (and the largest below n) that the encryption of the
+// one-byte message encMsg1 to the fixed recipient must discard in step A5 (all-zero mask): found by search with the
+// reference, deterministic.
+func newGrpA5() *grp {
+	g := newGrp("sm2", ecref.SM2().N)
+	c := ecref.SM2()
+	pubB := c.BaseMul(sm2dB)
+	found := 0
+	for k := int64(1); k < 5000 && found < 2; k++ {
+		if _, _, _, ok := c.EncryptWithK(pubB, big.NewInt(k), encMsg1); !ok {
+			found++
+			g.vals = append(g.vals, cval{fmt.Sprintf("a5-zero-mask#%d", found), ecref.Bytes32(big.NewInt(k)), true})
+		}
+	}
+	if found < 2 {
+		panic("c12: no all-zero-mask scalar found below 5000")
+	}
+	return g
 }
